@@ -10,6 +10,10 @@
    ContainsStr and the proxy's connection wrapper (fake conn with the case's RemoteAddr, every
    kind of first bytes: v1/v2 TCP4/TCP6, UNKNOWN, LOCAL, none); plus random prefixes of every
    length, non-IP peers, and mutated list entries.
+3b. TLC enumerates configured lists of up to three entries (valid IPv4 / CIDRs, blank and
+   white-space entries, garbage, a mapped address; 585 lists) with the verdict; the harness
+   puts each into a proxy configuration (proxy.New with ProxyProtocol on, Config.Validate)
+   and, where it is acceptable, wraps connections under that configuration.
 4. TLC reads every logged text with its own IP / CIDR / host:port grammar and judges.
 """
 import json
@@ -25,7 +29,7 @@ META = {
             "bytes, and TLC judges the recorded results after reading all addresses with its own textual grammar.",
     "design_ref": "DESIGN.md section 4, C33",
     "level_note": "Left open (either result accepted): a mapped peer against an IPv6 prefix that holds its 128-bit "
-                  "form (::/0), list entries with a zone or with leading zeros, first bytes that start like a header "
+                  "form (::/0), list entries with a zone, with leading zeros or with white space around a non-blank text, first bytes that start like a header "
                   "but are none, and the address after a trusted UNKNOWN/LOCAL header. CIDR entries with host bits set "
                   "count as valid. The header-sniffing timeout is not exercised. Peer texts are the well-formed "
                   "host:port / [host]:port / bare forms.",
@@ -47,6 +51,13 @@ def run(ctx):
     ctx.log("boundary cases at 32/128 bits: %d (%d trusted)" % (len(vecs), sum(1 for v in vecs if v["trusted"])))
     with open(ctx.path("vectors.json"), "w") as fh:
         json.dump(vecs, fh)
+    rl = ctx.tlc("ProxyProto", "ProxyProto_lists.cfg", workers=1)
+    lists = rl.printed_json("LIST")
+    if len(lists) != rl.distinct:
+        raise vlib.ToolError("exported %d lists for %d states" % (len(lists), rl.distinct))
+    ctx.log("configured lists of <= 3 entries: %d (%d acceptable)" % (len(lists), sum(1 for x in lists if x["verdict"] == "ok")))
+    with open(ctx.path("lists.json"), "w") as fh:
+        json.dump(lists, fh)
 
     ctx.harness("./c33", "TestTrace", env={"VERIF_RANDOM": ctx.pick(120, 4000),
                                            "VERIF_MUTATIONS": ctx.pick(500, 20000),
@@ -68,7 +79,11 @@ def run(ctx):
             break
         bad = recs[matched]
         ev = bad["ev"]
-        if ev == "parse":
+        if ev == "cfglist":
+            key = "cfglist:%s:%s" % (bad["s"], "accepted" if bad["new_ok"] or bad["validate_ok"] else "rejected")
+            desc = "configured proxyProtocolTrustedProxies %s: proxy.New %s, Validate %s" % (
+                bad["s"], "ok" if bad["new_ok"] else "error", "ok" if bad["validate_ok"] else "error")
+        elif ev == "parse":
             key = "parse:%s:%s" % (bad["s"], "accepted" if bad["ok"] else "rejected")
             desc = "trusted-list entry %r was %s" % (bad["s"], "accepted" if bad["ok"] else "rejected")
         elif ev == "contains":
@@ -86,7 +101,7 @@ def run(ctx):
         path = ctx.path("rest%d.ndjson" % tries)
         vlib.write_ndjson(path, recs)
     ctx.traces_validated += judged
-    if not st["wrap_address_changed"] or not st["wrap_read_errors"] or not st["contains_true"] \
+    if st["configured_lists_accepted"] in (0, st["configured_lists"]) or not st["wrap_address_changed"] or not st["wrap_read_errors"] or not st["contains_true"] \
             or st["parse_ok"] in (0, st["parse"]):
         raise vlib.ToolError("outcome classes not all exercised: %s" % st)
     cov = {
@@ -98,6 +113,8 @@ def run(ctx):
                 "through Contains (TCPAddr / textual / bare forms), ContainsStr and the wrapper",
         "boundary_vectors": len(vecs),
         "random_cases": st["random_cases"],
+        "configured_lists": st["configured_lists"],
+        "configured_lists_accepted": st["configured_lists_accepted"],
         "parse_events": st["parse"],
         "parse_accepted": st["parse_ok"],
         "contains_events": st["contains"],
@@ -110,5 +127,6 @@ def run(ctx):
     }
     return ctx.finish("model_checking", cov, [
         "PROXY headers are hand-built by the harness (v1 text, v2 binary) from the PROXY protocol specification",
-        "an empty configured list (built-in defaults) is not exercised",
+        "for an empty configured list the trust decision is judged against the documented built-in set "
+        "(loopback, RFC 1918, link-local, ULA), copied into the harness",
     ])
